@@ -101,7 +101,8 @@ inline const std::vector<SlotInfo>& t36_slots()
         const char* spec[] = {
             "xx f", "x f", "xxx f", " f", "x d", "xx c", "xe f", "xxx f", "x f", "xx f", " f", "xex f",
             "xxxx f", "x c", "xx f", "e f", "xxx c", "x d", "xx f", " c", "ex f", "xxx f", "x f", "xxxx f",
-            "xx f", "exx f", "x f", " f", "xxe f", "xxx f", "xx c", "x f", "xxxx c", "xx f", "x f", "xxx f"};
+            "xx f", "exx f", "x f", " f", "xxe f", "xxx f", "xx c", "x f", "xxxx c", "xx f", "x f", "xxx f",
+            "xxxxx f", "xxxxxx f", "xxxxx c"};
         std::vector<SlotInfo> v;
         for (const char* sp : spec)
         {
@@ -175,7 +176,10 @@ auto make_t36(Limits lim, LexerUsage lu = LexerUsage{})
             park(ta, ta, ta, ta) >>= FC<32>{},
             park(ta, ta) >= F<33>{},
             park(ta) >= F<34>{},
-            park(ta, ta, ta) >= F<35>{}
+            park(ta, ta, ta) >= F<35>{},
+            park(ta, ta, ta, ta, ta) >= F<36>{},
+            park(ta, ta, ta, ta, ta, ta) >= F<37>{},
+            park(ta, ta, ta, ta, ta) >>= FC<38>{}
         ),
         lu,
         lim
